@@ -101,6 +101,63 @@ package restful
 //@ ensures max: bestIdx(W, Q, n) >= 0 && 0 <= j && j < n && svcAdmits(W[j], Q) ==> svcScore(W[j]) <= svcScore(W[bestIdx(W, Q, n)])
 //@ ensures first: bestIdx(W, Q, n) >= 0 && 0 <= j && j < bestIdx(W, Q, n) && svcAdmits(W[j], Q) ==> svcScore(W[j]) < svcScore(W[bestIdx(W, Q, n)])
 
+//@ func (*sortableCurlyRoutes).add
+//@ props C01 C02 C03 C19
+//@ requires s != nil
+//@ modifies s, elems(*s)
+//@ ensures len: len(*s) == old(len(*s)) + 1
+//@ ensures last: same((*s)[len(*s)-1], route)
+//@ ensures kept: forall(0, old(len(*s)), func(k int) bool { return same((*s)[k], old((*s)[k])) })
+//@ ensures array: fresh(*s) || sameArray(*s, old(*s))
+//@ nopanic
+
+//@ func (sortableCurlyRoutes).routes
+//@ props C01 C02 C03 C19
+//@ ensures len: len(routes) == len(s)
+//@ ensures copy: forall(0, len(s), func(k int) bool { return same(routes[k], s[k].route) })
+//@ ensures fresh: fresh(routes)
+//@ nopanic
+//@ modifies nothing
+//@ loop 0 invariant len: len(routes) == it_i && cap(routes) == len(s) && fresh(routes)
+//@ loop 0 invariant copy: forall(0, it_i, func(k int) bool { return same(routes[k], s[k].route) })
+
+// sort.Sort on a sortableCurlyRoutes: assumed to permute the elements and to
+// order them by Less, whose contract (proved) is curlyBefore and which is a
+// strict weak order (lemma C03.curly-less-swo).
+//@ func ext:sort.Sort/sortableCurlyRoutes
+//@ props C01 C02 C03
+//@ trusted A-SORT: sort.Sort permutes the collection and leaves no later element strictly before an earlier one
+//@ modifies elems(data.(sortableCurlyRoutes))
+//@ ensures sorted: forall(0, len(data.(sortableCurlyRoutes)), func(i int) bool { return forall(i+1, len(data.(sortableCurlyRoutes)), func(j int) bool { return !curlyBefore(data.(sortableCurlyRoutes)[j], data.(sortableCurlyRoutes)[i]) }) })
+//@ ensures perm1: forall(0, len(data.(sortableCurlyRoutes)), func(k int) bool { return exists(0, len(data.(sortableCurlyRoutes)), func(m int) bool { return same(data.(sortableCurlyRoutes)[k], old(data.(sortableCurlyRoutes)[m])) }) })
+//@ ensures perm2: forall(0, len(data.(sortableCurlyRoutes)), func(m int) bool { return exists(0, len(data.(sortableCurlyRoutes)), func(k int) bool { return same(data.(sortableCurlyRoutes)[k], old(data.(sortableCurlyRoutes)[m])) }) })
+//@ nopanic
+
+//@ lemma C03.curly-less-swo
+//@ props C03
+//@ forall x curlyRoute, y curlyRoute, z curlyRoute
+//@ ensures irreflexive: !curlyBefore(x, x)
+//@ ensures asymmetric: curlyBefore(x, y) ==> !curlyBefore(y, x)
+//@ ensures transitive: curlyBefore(x, y) && curlyBefore(y, z) ==> curlyBefore(x, z)
+//@ ensures incomparability-transitive: !curlyBefore(x, y) && !curlyBefore(y, x) && !curlyBefore(y, z) && !curlyBefore(z, y) ==> !curlyBefore(x, z) && !curlyBefore(z, x)
+
+//@ func (CurlyRouter).selectRoutes
+//@ props C01 C02 C03 C18 C19
+//@ requires ws: ws != nil
+//@ requires wf: forall(0, len(ws.routes), func(k int) bool { return wfTemplate(ws.routes[k].pathParts, ws.routes[k].hasCustomVerb) })
+//@ ensures sound: forall(0, len(result), func(j int) bool { return exists(0, len(ws.routes), func(k int) bool { return same(result[j].route, ws.routes[k]) && pathAdmits(ws.routes[k].pathParts, requestTokens, ws.routes[k].hasCustomVerb) }) })
+//@ ensures complete: forall(0, len(ws.routes), func(k int) bool { return pathAdmits(ws.routes[k].pathParts, requestTokens, ws.routes[k].hasCustomVerb) ==> exists(0, len(result), func(j int) bool { return same(result[j].route, ws.routes[k]) }) })
+//@ ensures counts: forall(0, len(result), func(j int) bool { return result[j].staticCount == countStatic(result[j].route.pathParts, len(result[j].route.pathParts), result[j].route.hasCustomVerb) && result[j].paramCount == countParams(result[j].route.pathParts, len(result[j].route.pathParts), result[j].route.hasCustomVerb) })
+//@ ensures sorted: forall(0, len(result), func(i int) bool { return forall(i+1, len(result), func(j int) bool { return !curlyBefore(result[j], result[i]) }) })
+//@ ensures fresh: fresh(result)
+//@ nopanic
+//@ modifies nothing
+//@ opt opaque pathAdmits wfTemplate countStatic countParams curlyBefore
+//@ loop 0 invariant fresh: fresh(candidates)
+//@ loop 0 invariant sound: forall(0, len(candidates), func(j int) bool { return exists(0, it_i, func(k int) bool { return same(candidates[j].route, ws.routes[k]) && pathAdmits(ws.routes[k].pathParts, requestTokens, ws.routes[k].hasCustomVerb) }) })
+//@ loop 0 invariant complete: forall(0, it_i, func(k int) bool { return pathAdmits(ws.routes[k].pathParts, requestTokens, ws.routes[k].hasCustomVerb) ==> exists(0, len(candidates), func(j int) bool { return same(candidates[j].route, ws.routes[k]) }) })
+//@ loop 0 invariant counts: forall(0, len(candidates), func(j int) bool { return candidates[j].staticCount == countStatic(candidates[j].route.pathParts, len(candidates[j].route.pathParts), candidates[j].route.hasCustomVerb) && candidates[j].paramCount == countParams(candidates[j].route.pathParts, len(candidates[j].route.pathParts), candidates[j].route.hasCustomVerb) })
+
 //@ func (sortableCurlyRoutes).Less
 //@ props C03
 //@ requires 0 <= i && i < len(s) && 0 <= j && j < len(s)
@@ -164,3 +221,92 @@ package restful
 // A-VERB, stated about the spec functions themselves: a token that ends in a
 // custom verb ends in a letter.
 //@ axiom verb-not-brace: forallStr(func(t string) bool { return hasVerb(t) ==> !strings.HasSuffix(t, "}") })
+
+// ---------------------------------------------------------------------------
+// http.ResponseWriter of unknown implementation (assumed, DESIGN §5)
+
+//@ func iface:http.ResponseWriter.Header
+//@ props C05 C07 C08 C09 C15 C17
+//@ trusted model of net/http: Header() returns the same non-nil map on every call
+//@ ensures same: same(result, hdrOf(self))
+//@ ensures nonnil: result != nil
+//@ nopanic
+//@ modifies nothing
+
+//@ func iface:http.ResponseWriter.Write
+//@ props C07 C10 C15
+//@ trusted model of net/http: Write accepts a prefix of the bytes; an error-free Write accepts all of them
+//@ modifies ghost $g.accepted, ghost $g.lasterr, ghost $g.wcalls
+//@ ensures range: 0 <= result0 && result0 <= len(arg0)
+//@ ensures all: result1 == nil ==> result0 == len(arg0)
+//@ ensures accepted: accepted(self) == old(accepted(self)) + result0
+//@ ensures err: lastWriteErr(self) == result1
+//@ ensures calls: writeCalls(self) == old(writeCalls(self)) + 1
+//@ nopanic
+
+//@ func iface:http.ResponseWriter.WriteHeader
+//@ props C07 C10 C15
+//@ trusted model of net/http: WriteHeader records the status
+//@ modifies ghost $g.wstatus, ghost $g.whcalls
+//@ ensures status: statusReceived(self) == arg0
+//@ ensures calls: writeHeaderCalls(self) == old(writeHeaderCalls(self)) + 1
+//@ nopanic
+
+// ---------------------------------------------------------------------------
+// Response bookkeeping (C15)
+
+//@ func NewResponse
+//@ props C15 C19
+//@ ensures fresh: fresh(result) && result != nil
+//@ ensures init: result.statusCode == 200 && result.contentLength == 0 && result.ResponseWriter == httpWriter
+//@ ensures produces: len(result.routeProduces) == 0 && result.requestAccept == ""
+//@ nopanic
+//@ modifies nothing
+
+//@ func (*Response).Write
+//@ props C15
+//@ requires r != nil && r.ResponseWriter != nil
+//@ modifies r.contentLength, ghost $g.accepted, ghost $g.lasterr, ghost $g.wcalls
+//@ ensures count: r.contentLength == old(r.contentLength) + result0
+//@ ensures passthrough: result0 == accepted(r.ResponseWriter) - old(accepted(r.ResponseWriter)) && result1 == lastWriteErr(r.ResponseWriter)
+//@ ensures once: writeCalls(r.ResponseWriter) == old(writeCalls(r.ResponseWriter)) + 1
+//@ ensures range: 0 <= result0 && result0 <= len(bytes) && (result1 == nil ==> result0 == len(bytes))
+//@ nopanic
+
+//@ func (*Response).WriteHeader
+//@ props C15
+//@ requires r != nil && r.ResponseWriter != nil
+//@ modifies r.statusCode, ghost $g.wstatus, ghost $g.whcalls
+//@ ensures recorded: r.statusCode == httpStatus && statusReceived(r.ResponseWriter) == httpStatus
+//@ ensures once: writeHeaderCalls(r.ResponseWriter) == old(writeHeaderCalls(r.ResponseWriter)) + 1
+//@ nopanic
+
+//@ func (Response).StatusCode
+//@ props C15
+//@ ensures r.statusCode == 0 ==> result == 200
+//@ ensures r.statusCode != 0 ==> result == r.statusCode
+//@ nopanic
+//@ modifies nothing
+
+//@ func (Response).ContentLength
+//@ props C15
+//@ ensures result == r.contentLength
+//@ nopanic
+//@ modifies nothing
+
+// ---------------------------------------------------------------------------
+// Filter chain (C06)
+
+//@ func (*FilterChain).ProcessFilter
+//@ props C01 C06 C09 C10 C17
+//@ requires f != nil && 0 <= f.Index
+//@ requires filters: forall(0, len(f.Filters), func(k int) bool { return f.Filters[k] != nil })
+//@ requires target: f.Index >= len(f.Filters) ==> f.Target != nil
+//@ modifies f.Index, cb(f), cb(request), cb(response), headers, ghost $trace
+//@ callsite FilterFunction advanced: f.Index == old(f.Index) + 1 && arg2 == f && arg0 == request && arg1 == response
+//@ callsite RouteFunction exhausted: f.Index >= len(f.Filters) && arg0 == request && arg1 == response
+//@ ensures filter: old(f.Index) < len(old(f.Filters)) ==> calls() == traceCall(old(calls()), old(f.Filters)[old(f.Index)], request, response, f)
+//@ ensures target: old(f.Index) >= len(old(f.Filters)) ==> calls() == traceCall(old(calls()), old(f.Target), request, response, nil)
+//@ ensures kept: same(f.Filters, old(f.Filters)) && same(f.Target, old(f.Target))
+//@ signals filter: old(f.Index) < len(old(f.Filters)) ==> calls() == traceCall(old(calls()), old(f.Filters)[old(f.Index)], request, response, f)
+//@ signals target: old(f.Index) >= len(old(f.Filters)) ==> calls() == traceCall(old(calls()), old(f.Target), request, response, nil)
